@@ -55,6 +55,17 @@ CHECKS = {
                      "disk model.",
                 note="trusted: qcow2.txt transcription in mc/builders/qcow2.py (no fixture / qemu-img available; validated by an "
                      "independent round-trip decoder), zlib raw deflate, CPython, AlignedStream; zstd not installed"),
+    "C07": dict(level=MC, ref="DESIGN.md section 4 C07",
+                text="Real chains of depth 1-3 are built for every mechanism (VHDX differencing on real files incl. every "
+                     "6-8 sector bitmap window per non-base layer at bit offsets 0/3/5, across the block boundary and in the "
+                     "second chunk; VMDK delta chains with hosted, SE-sparse and multi-extent children; Parallels snapshot "
+                     "chains with TopGUID absent/default/explicit, Plain base and open(guid) for every shot; QCOW2 backing "
+                     "chains with standard and extended L2 and internal snapshot views read interleaved; VDI parents) over "
+                     "every per-layer allocation map of the bound, read with boundary requests and compared with the top-down "
+                     "overlay fold; plus the parent-location configurations (resolvable -> reads through, unresolvable -> "
+                     "constructor raises, opt-out -> zeros).",
+                note="trusted: builders of C01-C06, overlay fold in mc/models.py; layers of a chain have equal virtual size; "
+                     "VHDX undefined/unmapped states are not used under a parent"),
 }
 
 PENDING_REASON = "check not built yet in this session (planned in DESIGN.md section 4); not claimed until it runs"
